@@ -44,6 +44,8 @@ type call struct {
 //	    delivery has to wait for it, i.e. with at most buffer-many events
 //	    outstanding for it: Batch, Subscribe and Close must still return and its
 //	    channel is closed after Close
+//	'd' slow reader that stays: lets `delay` of model time pass before every
+//	    receive, receives until its channel is closed, never cancels
 //	'q' prompt reader that cancels its context at leaveAt (keeps reading until
 //	    its channel is closed)
 //	'r' slow reader that stays: receives k values, pauses until leaveAt, then
@@ -51,8 +53,9 @@ type call struct {
 type sub struct {
 	kind    byte
 	k       int
-	lateAt  int // >0: Subscribe is called from its own thread at that model time (ms)
-	leaveAt int // ms
+	lateAt  int           // >0: Subscribe is called from its own thread at that model time (ms)
+	leaveAt int           // ms
+	delay   time.Duration // 'd': model time slept before every receive
 }
 
 type scen struct {
@@ -84,7 +87,9 @@ func (s scen) name() string {
 		if x.kind == 's' || x.kind == 'r' {
 			t += fmt.Sprint(x.k)
 		}
-		if x.kind != 'p' && x.kind != 'n' {
+		if x.kind == 'd' {
+			t += x.delay.String()
+		} else if x.kind != 'p' && x.kind != 'n' {
 			t += fmt.Sprint("@", x.leaveAt)
 		}
 		if x.lateAt > 0 {
@@ -241,6 +246,15 @@ func mkExec(s scen) *mc.Exec {
 			case 'p', 'q':
 				mc.GoNamed(fmt.Sprintf("reader%d", i), func() {
 					for read() {
+					}
+				})
+			case 'd':
+				mc.GoNamed(fmt.Sprintf("reader%d", i), func() {
+					for {
+						mc.TimeSleep(x.delay)
+						if !read() {
+							return
+						}
 					}
 				})
 			case 'r':
@@ -446,7 +460,7 @@ func mkExec(s scen) *mc.Exec {
 			}
 			sort.Strings(keys) // deterministic report
 			for i, sr := range subs {
-				if sr.kind != 'p' && sr.kind != 'r' {
+				if sr.kind != 'p' && sr.kind != 'r' && sr.kind != 'd' {
 					continue // only subscribers that never cancel
 				}
 				for _, key := range keys {
@@ -665,6 +679,7 @@ const (
 	classDuring   = "batcher/departure-during-delivery"
 	classStall    = "batcher/close-with-stalled-subscriber"
 	classMulti    = "batcher/overlapping-close"
+	classSlow     = "batcher/slow-staying-reader"
 )
 
 func classOf(s scen) string {
@@ -683,8 +698,18 @@ func classOf(s scen) string {
 }
 
 func opts(s scen, min, max int) mc.Options {
-	return mc.Options{Delay: true, MinBound: min, Bound: max, AutoClock: true, ClockLast: s.timeline, Horizon: time.Second, MaxSteps: 30000}
+	h := time.Second
+	for _, x := range s.subs {
+		if x.kind == 'd' {
+			h = 48 * time.Hour // slow readers: up to an hour before each receive
+		}
+	}
+	return mc.Options{Delay: true, MinBound: min, Bound: max, AutoClock: true, ClockLast: s.timeline, Horizon: h, MaxSteps: 30000}
 }
+
+// slowDelays: the time a slow but well-behaved reader lets pass before each
+// receive; nothing in the statement depends on it.
+var slowDelays = []time.Duration{time.Millisecond, 100 * time.Millisecond, time.Second, 2 * time.Second, 2*time.Second + 1, 5 * time.Second, time.Minute, time.Hour}
 
 // scripts enumerates every script of 1..maxLen Batch calls over keys {a,b}
 // with gaps from the alphabet (first gap 0, first key a: the keys are
@@ -868,6 +893,19 @@ func scaledScenarios() []hx.Scenario {
 			}
 		}
 	}
+	// (H) a staying, well-behaved but SLOW reader: model time passes before each
+	// of its receives (timeline mode), 1-3 deliveries (buffer 2 + the one in the
+	// forwarder's hand: execute never has to wait for the reader), alone or next
+	// to a prompt reader, no Close: the most recent value of every key reaches
+	// it exactly once, same sequence, whatever the delay
+	for bi, batch := range []string{"a0", "a0 b0", "a0 b0 a11"} {
+		for _, d := range slowDelays {
+			sl := sub{kind: 'd', delay: d}
+			for si, ss := range [][]sub{{sl}, {sl, p}, {p, sl}} {
+				add(scen{prods: [][]call{parse(1, batch)}, subs: ss, closeAt: -1, timeline: true, class: classSlow}, 2, 3, si == 2 || (si == 1 && bi == 2))
+			}
+		}
+	}
 	// (G) two and three Close calls from different threads. The first Close
 	// has something to wait for: with "a0 b0 a11 b0" and a stalled / slow
 	// subscriber leaving at 25 ms the 4th delivery (21 ms) is parked on its full
@@ -902,7 +940,7 @@ func scaledScenarios() []hx.Scenario {
 	// skips the tail: the departing-subscriber families go first
 	rank := func(c string) int {
 		switch c {
-		case classMulti:
+		case classMulti, classSlow:
 			return -1
 		case classDuring, classStall:
 			return 0
